@@ -45,6 +45,18 @@ def run(ctx):
             v = (1 << (bits - 1)) | r.getrandbits(bits - 1) if bits > 1 else 1
             P.append((gen.tt(i2a(v)), gen.tt(deep)))
             P.append((gen.tt(b"\x00" + i2a(v)), gen.tt(deep)))
+    # paths that follow the spine of `deep` (so the lookup SUCCEEDS and its cost is observed) with
+    # 0..36 path bits, incl. the 7/15/23/31-bit paths whose canonical encoding carries a zero byte;
+    # stepping off the spine at the last bit reaches an atom (also a success)
+    for k in range(0, 37):
+        v = 1 << k
+        for j in range(k):
+            if (39 - j) % 3 == 0:
+                v |= 1 << j
+        for w in (v, v ^ (1 << (k - 1))) if k else (v,):
+            P.append((gen.tt(i2a(w)), gen.tt(deep)))
+            P.append((gen.tt(b"\x00" + i2a(w)), gen.tt(deep)))
+            P.append((gen.tt(op(16, i2a(w), q(i2a(1)))), gen.tt(deep)))
     lines = []
     for p, e in P + [(p, e) for p, e, _ in pool]:
         f = gen_prog.random_flags(r, 0.12)
